@@ -53,6 +53,7 @@ def run(prog, chk):
     depth_pairing(prog, chk)
     limit_errors_final(prog, chk)
     limits_wiring(prog, chk)
+    scope_var_limit(prog, chk)
 
 
 # ---------------------------------------------------------------------------
@@ -224,7 +225,7 @@ def check_comparison(prog, chk, body, field, variant, bb, idx, stmt, limit_tmp):
         if is_len:
             # the String whose len is taken must be the one pushed for assignment
             src = body.chase(ch[2]["args"][0])
-            stored_same = _len_subject_is_stored(body, ch[2]["args"][0])
+            stored_same = _len_subject_is_stored(body, ch[2]["args"][0]) or _len_subject_is_scope_attr(body, ch[2]["args"][0])
         chk.ob(
             is_len and stored_same and op == "Gt",
             "A7.pred",
@@ -283,6 +284,45 @@ def _len_subject_is_stored(body, arg_op):
             for (b2, i2, n2, how2, _c2) in R.forward_value_uses(body, tl):
                 if i2 == R.TERM and n2["k"] == "call" and "fn" in n2 and Callee(n2["fn"]).path.endswith("::push"):
                     return True
+    return False
+
+
+def _len_subject_is_scope_attr(body, arg_op):
+    """arg_op is `&value` where value is an attribute value of the element L being iterated (`for (k, v) in &L.attrs`)
+    and L is afterwards handed to push_element (its attributes become the variables of the new scope)"""
+    o = R.origin(body, arg_op, carriers={})
+    # the value is a component of the Some payload of Iterator::next
+    pl = op_place(arg_op)
+    root = None
+    cur = pl
+    for _ in range(8):
+        if cur is None:
+            break
+        d = body.single_def(cur[0])
+        if d is None:
+            break
+        if d[1] == R.TERM:
+            root = d
+            break
+        rv = d[2]
+        nxt = op_place(rv.get("op")) if rv["k"] in ("use", "cast") else (P(rv["place"]) if rv["k"] == "ref" else None)
+        cur = nxt
+    if root is None or "fn" not in root[2] or Callee(root[2]["fn"]).decl_path != "std::iter::Iterator::next":
+        return False
+    it = R.origin(body, root[2]["args"][0], carriers={"into_iter": 0})
+    # iterator comes from into_iter(&L.attrs)
+    src_local = None
+    if it[0] == "call" and "fn" in it[2] and Callee(it[2]["fn"]).decl_path == "std::iter::IntoIterator::into_iter":
+        f = R.origin(body, it[2]["args"][0], carriers={})
+        if f[0] == "field" and f[1][1] and f[1][1][-1] == ".attrs":
+            src_local = f[1][0]
+    elif it[0] == "field" and it[1][1] and it[1][1][-1] == ".attrs":
+        src_local = it[1][0]
+    if src_local is None:
+        return False
+    for (bb, t, c) in body.call_sites(lambda c: c.path == "svgdx::context::TransformerContext::push_element"):
+        if len(t["args"]) >= 2 and R.origin_local(body, t["args"][1]) == src_local:
+            return True
     return False
 
 
@@ -559,3 +599,38 @@ def limits_wiring(prog, chk):
                     f"CLI copies args.{f} into TransformConfig::{f}",
                     f"CLI initialises TransformConfig::{f} from `{src}`",
                 )
+
+
+def scope_var_limit(prog, chk):
+    """values that become variables are bounded wherever they can grow: a scope created from an element whose attributes
+    were *evaluated* (so `$a$a` has been expanded) must be preceded by the var_limit test; scopes created from the
+    element as written in the document are bounded by the input and need none"""
+    PUSHP = "svgdx::context::TransformerContext::push_element"
+    n = 0
+    for body in prog.bodies.values():
+        pushes = body.call_sites(R.path_is(PUSHP))
+        if not pushes or body.path == PUSHP:
+            continue
+        evald = set()
+        for (bb, t, c) in body.call_sites(R.path_endswith("SvgElement::eval_attributes")):
+            l = R.origin_local(body, t["args"][0])
+            if l is not None:
+                evald.add((l, bb))
+        for (bb, t, c) in pushes:
+            n += 1
+            l = R.origin_local(body, t["args"][1]) if len(t["args"]) > 1 else None
+            grows = any(l == el and body.dominates(eb, bb) for (el, eb) in evald)
+            key = f"{body.short}:push_element"
+            if not grows:
+                chk.ok("A7.scope-var-limit", key, body.where(bb, t.get("line")), "the scope is created from the element as written (attribute text bounded by the input)")
+                continue
+            # the test sits in a loop over the attributes: the loop's header (not its body) dominates the push
+            def _guards(x):
+                if body.dominates(x, bb):
+                    return True
+                lp = R.loop_containing(body, x)
+                return lp is not None and body.dominates(lp[0], bb) and bb not in lp[1]
+            reads = [x for (x, i, node) in R.place_reads(body, (".var_limit",)) if _guards(x)]
+            errs = R.constructs_variant(body, body.reachable, "svgdx::errors::SvgdxError", "VarLimitError")
+            chk.ob(bool(reads) and errs, "A7.scope-var-limit", key, body.where(bb, t.get("line")), "the evaluated attributes that become variables of the new scope are tested against var_limit first", f"{body.short} evaluates the element's attributes and makes them variables of a new scope without testing them against var_limit: a recursive <reuse> whose attribute mentions itself twice doubles the value at every level (memory exhaustion long before the depth limit)")
+    chk.floor("A7.scope-var-limit", n, 2, "push_element call site")
